@@ -77,7 +77,9 @@ Chunk *pawn_add_vsemi_after(Chunk *pc)
 
    chunk.SetType(CT_VSEMICOLON);
    chunk.SetParentType(CT_NONE);
-   chunk.Str() = options::mod_pawn_semicolon() ? ";" : "";
+   // never write into a disabled region: the text of a CT_IGNORED line is copied through as it is
+   chunk.Str() = (  options::mod_pawn_semicolon()
+                 && pc->IsNot(CT_IGNORED)) ? ";" : "";
    chunk.SetColumn(pc->GetColumn() + pc->Len());
 
    LOG_FMT(LPVSEMI, "%s: Added VSEMI on line %zu, prev='%s' [%s]\n",
